@@ -56,6 +56,10 @@ impl KeyCampaign {
         }
       }
     }
+    // one random-layout case in 48 has a wide shape (fans of 9-40 mappings on one final key, triggers
+    // of 5-10 keys, outputs of 5-14 keys, long Special and absorbing lists, 20-60 mappings), with
+    // up to 12 keys held so that the long chords can actually be formed
+    let wide = self.source == Source::Random && crate::rng::mix(seed, 0x71de0) % 48 == 0;
     let (layout, name, dist) = match self.source {
       Source::Shipped => {
         let mut pool: Vec<&NamedLayout> = self.shipped.iter().collect();
@@ -80,17 +84,18 @@ impl KeyCampaign {
         let motif = !dist && rng.chance(1, 3);
         let mut tries = 0;
         loop {
-          let l = if dist { gen_dist_layout(&mut rng, &o) } else if motif { gen_motif_layout(&mut rng, &o) } else { gen_layout(&mut rng, &o) };
+          let l = if wide { gen_wide_layout(&mut rng, &o) } else if dist { gen_dist_layout(&mut rng, &o) } else if motif { gen_motif_layout(&mut rng, &o) } else { gen_layout(&mut rng, &o) };
           tries += 1;
           // every generated layout goes through the real parser and converter
           match through_loader(&l) {
-            Some(l2) => break (l2, if dist { "dist".to_string() } else if motif { "random-alias-motif".to_string() } else { "random".to_string() }, dist),
+            Some(l2) => break (l2, if wide { "random-wide".to_string() } else if dist { "dist".to_string() } else if motif { "random-alias-motif".to_string() } else { "random".to_string() }, dist),
             None => { if tries > 20 { break (Layout { mappings: vec![] }, "empty-fallback".to_string(), false); } }
           }
         }
       }
     };
-    let ho = swarm_hist(&mut rng, thorough, self.faults, self.resets, dist);
+    let mut ho = swarm_hist(&mut rng, thorough, self.faults, self.resets, dist);
+    if wide && !ho.crowd { ho.max_held = rng.range(4, 12); let l = rng.range(30, 150); ho.len = ho.len.max(l); ho.intents = rng.range(1, 3); st.wide += 1; }
     let ops = gen_ops(&mut rng, &layout, &ho, st);
     // one run in three (never for shipped layouts, whose keys mean what they say) is renamed over
     // the whole key-code space
@@ -141,6 +146,7 @@ impl Campaign for KeyCampaign {
     ctx.acc.count("intent_steps", st.intent_steps);
     ctx.acc.count("runs_with_keys_renamed_over_the_whole_code_space", st.renamed);
     ctx.acc.count("biased_steps", st.biased);
+    ctx.acc.count("runs_with_a_wide_layout_shape", st.wide);
     let mut obs = Obs::default();
     obs.collect_states = true;
     let res = run_case_a(&case, &self.en, &mut obs);
